@@ -161,6 +161,12 @@ class Gen:
             return self.emit(ev("mod", peer=peer, seq=self.nseq(peer), seid=self.seid_literal(),
                                 ops=[op("create", "far", 1)] if r.random() < 0.5 else []))
         peer = s["peer"] if r.random() < 0.9 else "p%d" % r.randint(1, self.npeers)
+        if r.random() < 0.04:
+            # a Node ID IE that cannot be decoded, together with rule IEs: if the request goes unanswered it must leave no trace
+            # (the generator's picture of the session is left alone: it is only a picture)
+            scratch = {"ids": {k: set(v) for k, v in s["ids"].items()}}
+            ops = self.uniq_bar([self.rnd_op(scratch, maxid=maxid) for _ in range(r.randint(1, maxops))])
+            return self.emit(ev("mod", peer=peer, seq=self.nseq(peer), sref=s["ord"], node="!bad", ops=ops))
         ops = self.uniq_bar([self.rnd_op(s, no_loose=no_loose, maxid=maxid) for _ in range(r.randint(0, maxops))])
         return self.emit(ev("mod", peer=peer, seq=self.nseq(peer), sref=s["ord"], ops=ops, faults=self.faults(pfault), faults2=self.faults2(pfault)))
 
